@@ -15,27 +15,27 @@ HILO = ['FO/8', 'F7S/8']
 # per property: list of (batch name, hands quick, hands thorough, spec kwargs, policy kwargs)
 PROFILES = {
     'C01': [
-        ('all-variants', 260, 2600, dict(rake_p=0.45), dict(probe_level=0, illegal=0.05)),
+        ('all-variants', 200, 2600, dict(rake_p=0.45), dict(probe_level=0, illegal=0.05)),
         ('short-stacks-antes', 140, 1400, dict(stacks='short', ante_p=0.9, rake_p=0.3), dict(probe_level=0, illegal=0.0, fold=0.05)),
         ('custom-street-lists', 120, 1200, dict(custom=True), dict(probe_level=0, illegal=0.0, fold=0.06)),
         # Fraction-valued chips: the engine divides pots exactly (no odd chips); units of 1/15120 chip
-        ('fraction-chips', 120, 1200, dict(chips='fraction', rake_p=0.0, stacks='short', variants=FLOP + STUD + ['N2L1D'], boards=(1, 2, 2)),
+        ('fraction-chips', 80, 1200, dict(chips='fraction', rake_p=0.0, stacks='short', variants=FLOP + STUD + ['N2L1D'], boards=(1, 2, 2)),
          dict(probe_level=0, illegal=0.0, fold=0.03, allin=0.2, runout=0.7)),
         # the known 'orphan pot' family on purpose: voluntary mucks and cash-game folds that leave a pot without contender
         ('orphan-pots-known-finding', 80, 800, dict(stacks='mixed', variants=FLOP + DRAW, no_autos=('Hole cards showing or mucking',)),
          dict(probe_level=0, illegal=0.0, fold=0.05, allin=0.15, manual_show=1.0, muck=0.85, allow_orphan=True)),
-        ('split-pots-boards', 160, 1600, dict(variants=HILO + ['PO', 'NT', 'FO/8'], stacks='mixed', boards=(1, 2, 2), mode='C'),
+        ('split-pots-boards', 110, 1600, dict(variants=HILO + ['PO', 'NT', 'FO/8'], stacks='mixed', boards=(1, 2, 2), mode='C'),
          dict(probe_level=0, illegal=0.0, fold=0.02, allin=0.15, runout=0.8)),
     ],
     'C02': [
-        ('showdowns-multiway', 220, 2200, dict(stacks='short', variants=FLOP + STUD, ante_p=0.7),
+        ('showdowns-multiway', 160, 2200, dict(stacks='short', variants=FLOP + STUD, ante_p=0.7),
          dict(probe_level=0, illegal=0.0, fold=0.04, allin=0.2, manual_show=0.2)),
         ('hi-lo', 120, 1200, dict(variants=HILO, stacks='mixed'), dict(probe_level=0, illegal=0.0, fold=0.03, manual_show=0.2)),
-        ('fraction-chips', 100, 1000, dict(chips='fraction', rake_p=0.0, stacks='short', variants=FLOP + STUD, boards=(1, 2, 2)),
+        ('fraction-chips', 80, 1000, dict(chips='fraction', rake_p=0.0, stacks='short', variants=FLOP + STUD, boards=(1, 2, 2)),
          dict(probe_level=0, illegal=0.0, fold=0.03, allin=0.2, runout=0.7)),
-        ('orphan-pots-known-finding', 60, 600, dict(stacks='mixed', variants=FLOP + DRAW, no_autos=('Hole cards showing or mucking',)),
+        ('orphan-pots-known-finding', 40, 600, dict(stacks='mixed', variants=FLOP + DRAW, no_autos=('Hole cards showing or mucking',)),
          dict(probe_level=0, illegal=0.0, fold=0.05, allin=0.15, manual_show=1.0, muck=0.85, allow_orphan=True)),
-        ('boards-and-runouts', 100, 1000, dict(variants=['NT', 'PO', 'NS', 'FO/8'], stacks='short', mode='C', boards=(1, 2, 2)),
+        ('boards-and-runouts', 80, 1000, dict(variants=['NT', 'PO', 'NS', 'FO/8'], stacks='short', mode='C', boards=(1, 2, 2)),
          dict(probe_level=0, illegal=0.0, fold=0.03, allin=0.25, runout=0.9)),
     ],
     'C03': [
@@ -79,7 +79,7 @@ PROFILES = {
     'C12': [
         ('deep-showdowns', 220, 2200, dict(stacks='deep'), dict(probe_level=0, illegal=0.0, fold=0.03, raise_=0.2, manual_show=0.1)),
         ('side-pots', 120, 1200, dict(stacks='mixed', variants=FLOP + STUD), dict(probe_level=0, illegal=0.0, fold=0.03, allin=0.15, manual_show=0.1)),
-        ('hi-lo-boards-runouts', 140, 1400, dict(variants=['FO/8', 'FO/8', 'PO', 'NT'], stacks='mixed', boards=(1, 2, 2), mode='C'),
+        ('hi-lo-boards-runouts', 100, 1400, dict(variants=['FO/8', 'FO/8', 'PO', 'NT'], stacks='mixed', boards=(1, 2, 2), mode='C'),
          dict(probe_level=0, illegal=0.0, fold=0.02, allin=0.2, manual_show=0.05, runout=0.8)),
         ('explicit-and-partial-shows', 100, 1000, dict(variants=FLOP + STUD, stacks='short'),
          dict(probe_level=1, illegal=0.0, fold=0.03, allin=0.3, manual_show=0.3, partial_show=0.3)),
@@ -275,9 +275,9 @@ def check_C12(run: Run):
     rng = random.Random(run.seed * 31 + 12)
     q = run.tier == 'quick'
     pol = dict(probe_level=0, probe_every=0.0, illegal=0.0, fold=0.03, raise_=0.2)
-    ps = _pairs(run, rng, 160 if q else 1600, twins.show_pair, dict(stacks='deep'), pol)
-    ps += _pairs(run, rng, 100 if q else 1000, twins.show_pair, dict(stacks='mixed', variants=FLOP + STUD), dict(pol, allin=0.15), tid0=5000)
-    ps += _pairs(run, rng, 80 if q else 800, twins.show_pair, dict(variants=['FO/8', 'F7S/8', 'PO'], boards=(1, 2, 2), mode='C'), pol, tid0=10000)
+    ps = _pairs(run, rng, 100 if q else 1600, twins.show_pair, dict(stacks='deep'), pol)
+    ps += _pairs(run, rng, 60 if q else 1000, twins.show_pair, dict(stacks='mixed', variants=FLOP + STUD), dict(pol, allin=0.15), tid0=5000)
+    ps += _pairs(run, rng, 60 if q else 800, twins.show_pair, dict(variants=['FO/8', 'F7S/8', 'PO'], boards=(1, 2, 2), mode='C'), pol, tid0=10000)
     twins.validate_pairs(run, ps, 'C12_auto-vs-show-everything', 'C12')
     run.need('muck', 'op:HK')
 
